@@ -13,13 +13,16 @@
 (* trace validation) and, folded by Run, as the function DecodeFn used by   *)
 (* the round-trip, [nop] and API modules.  The only nondeterminism is the   *)
 (* choice of the input (Supply / Close) in generation mode.                 *)
-EXTENDS Constraints
-
-CONSTANTS
-  Table,      \* constraint table in force (function key -> capacity)
-  Compat,     \* BOOLEAN: the compatible=True flag
-  MaxLabel,   \* largest legal ring-closure label (99; scaled down in one config)
-  KnownSyms   \* symbols whose classification is precomputed (any set; only a cache)
+EXTENDS Constraints, DecParams
+(* DecParams supplies, as plain definitions (TLC evaluates a constant        *)
+(* definition once, whereas a CONSTANT substituted in a .cfg is re-evaluated *)
+(* at every use - measured: 70x slower):                                     *)
+(*   Table     constraint table in force (function key -> capacity)          *)
+(*   Compat    BOOLEAN, the compatible=True flag                             *)
+(*   MaxLabel  largest legal ring-closure label (99; scaled down in one run) *)
+(*   KnownSyms symbols whose classification is precomputed (only a cache)    *)
+(* The harness writes a DecParams.tla next to each model; spec/DecParams.tla *)
+(* holds the defaults.                                                       *)
 
 INF == 1000000000
 
@@ -58,6 +61,9 @@ InitState(inp, closed) ==
     need   |-> 0, acc |-> 0, pend |-> [k |-> "none"],
     atoms  |-> <<>>,       \* [atom, cap, root, attr]
     bonds  |-> <<>>,       \* [src, dst, order, ring, ls, rs]
+    adj    |-> <<>>,       \* per atom: its out-bonds (indices into bonds) in written order:
+                           \*   ring bonds first (order of formation), then chain bonds
+    rm     |-> <<>>,       \* per atom: ring bonds made so far
     rings  |-> <<>>,       \* queued ring requests [l, r, order, ls, rs]
     ri     |-> 1,
     fuzzy  |-> FALSE,      \* an [..eps..] look-alike was read: outcome is in the permissive region
@@ -139,6 +145,9 @@ DoReadAtom(d) ==
             !.bonds = IF st = 0 THEN @
                       ELSE Append(@, [src |-> Top(d).prev, dst |-> n, order |-> bo, ring |-> FALSE,
                                       ls |-> s.st, rs |-> ""]),
+            !.adj = IF st = 0 THEN Append(@, <<>>)
+                    ELSE Append([@ EXCEPT ![Top(d).prev] = Append(@, Len(d.bonds) + 1)], <<>>),
+            !.rm = Append(@, 0),
             !.stack = SetTop(d, [Top(d) EXCEPT !.state = ns, !.prev = n])]
 
 DoReadBranch(d) ==
@@ -207,22 +216,28 @@ DoFormRing(d) ==
      ELSE IF HasBond(d, r.l, r.r)
           THEN LET j == BondIdx(d, r.l, r.r)
                IN [nx EXCEPT !.bonds[j].order = Min(o + @, 3)]
-          ELSE [nx EXCEPT !.bonds = Append(@, [src |-> r.l, dst |-> r.r, order |-> o, ring |-> TRUE,
-                                               ls |-> r.ls, rs |-> r.rs])]
+          ELSE LET j == Len(d.bonds) + 1
+                   Ins(l, k) == SubSeq(l, 1, k) \o <<j>> \o SubSeq(l, k + 1, Len(l))
+               IN [nx EXCEPT !.bonds = Append(@, [src |-> r.l, dst |-> r.r, order |-> o, ring |-> TRUE,
+                                                  ls |-> r.ls, rs |-> r.rs]),
+                             !.adj = [@ EXCEPT ![r.l] = Ins(@, d.rm[r.l]), ![r.r] = Ins(@, d.rm[r.r])],
+                             !.rm = [@ EXCEPT ![r.l] = @ + 1, ![r.r] = @ + 1]]
 DoRingsDone(d) ==
   [d EXCEPT !.pc = "write", !.lab = [j \in 1..Len(d.bonds) |-> 0]]
 
 (***************************************************************************)
 (* SmilesWriter                                                            *)
 (***************************************************************************)
+(* written neighbour order of atom i: ring bonds (formation order), then chain bonds *)
+Adj(d, i) == d.adj[i]
+(* the same, DEFINED from the bond list (what adj means); AdjMeaning is an invariant *)
 RECURSIVE AdjFrom(_, _, _, _)
 AdjFrom(d, j, i, wantRing) ==
   IF j > Len(d.bonds) THEN <<>>
   ELSE (IF wantRing /\ d.bonds[j].ring /\ (d.bonds[j].src = i \/ d.bonds[j].dst = i) THEN <<j>>
         ELSE IF ~wantRing /\ ~d.bonds[j].ring /\ d.bonds[j].src = i THEN <<j>> ELSE <<>>)
        \o AdjFrom(d, j + 1, i, wantRing)
-(* written neighbour order of atom i: ring bonds (formation order), then chain bonds *)
-Adj(d, i) == AdjFrom(d, 1, i, TRUE) \o AdjFrom(d, 1, i, FALSE)
+AdjMeaning(d) == \A i \in 1..Len(d.atoms) : d.adj[i] = AdjFrom(d, 1, i, TRUE) \o AdjFrom(d, 1, i, FALSE)
 Roots(d) == SelectSeq([i \in 1..Len(d.atoms) |-> i], LAMBDA i : d.atoms[i].root)
 Other(b, i) == IF b.src = i THEN b.dst ELSE b.src
 BondChar(b, from) ==
@@ -264,7 +279,8 @@ DoWStep(d) ==
                                 !.wst = w1,
                                 !.lab[j] = IF closing THEN -1 ELSE n,
                                 !.nopen = IF closing THEN @ ELSE @ + 1,
-                                !.labels = Append(@, [bond |-> j, lab |-> n])]
+                                !.labels = Append(@, [bond |-> j, lab |-> n,
+                                                      full |-> (~closing /\ d.nopen >= MaxLabel /\ FreeLabels(d) = {})])]
              ELSE LET br == top.bi < top.tot - 1
                   IN [d1 EXCEPT !.out = o1 \o (IF br THEN "(" ELSE "") \o BondChar(b, top.a),
                                 !.wst = Append(w1, [a |-> b.dst, bi |-> 0,
@@ -314,20 +330,63 @@ StateBound(d) ==      \* the frame state never exceeds the free valence of prev
                                              THEN d.stack[g].state ELSE 0])
             <= d.atoms[fr.prev].cap - BondSum(d, fr.prev)
 NoSelfBond(d)   == \A j \in 1..Len(d.bonds) : d.bonds[j].src # d.bonds[j].dst
-NoDoubleEdge(d) == \A j, k \in 1..Len(d.bonds) :
-                      j # k => {d.bonds[j].src, d.bonds[j].dst} # {d.bonds[k].src, d.bonds[k].dst}
+NoDoubleEdge(d) == Cardinality({{d.bonds[j].src, d.bonds[j].dst} : j \in 1..Len(d.bonds)}) = Len(d.bonds)
 OrdersLegal(d)  == \A j \in 1..Len(d.bonds) : d.bonds[j].order \in 1..3
 ChainForward(d) == \A j \in 1..Len(d.bonds) : d.bonds[j].src < d.bonds[j].dst
-LabelsLegal(d)  == \A i \in 1..Len(d.labels) : d.labels[i].lab \in 1..MaxLabel
-(* a label is never written for a new ring while another ring still holds it open *)
-LabelsPaired(d) ==
-  \A i, j \in 1..Len(d.labels) :
-     (i < j /\ d.labels[i].lab = d.labels[j].lab /\ d.labels[i].bond # d.labels[j].bond) =>
-        \E k \in (i + 1)..(j - 1) : d.labels[k].bond = d.labels[i].bond
+(* a written label is legal unless MaxLabel rings were open at that moment  *)
+(* (then no legal SMILES exists at all: the documented inherent limit)      *)
+LabelsLegal(d)  == \A i \in 1..Len(d.labels) : d.labels[i].lab \in 1..MaxLabel \/ d.labels[i].full
+LabelOverflow(d) == \E i \in 1..Len(d.labels) : d.labels[i].full
+(* Reading the written labels left to right: a label closes the ring that    *)
+(* holds it open, and a label is never written for a new ring while another  *)
+(* ring still holds it open (unless no legal label was left).                *)
+RECURSIVE PairedFrom(_, _, _)
+PairedFrom(L, k, open) ==      \* open: set of <<label, bond>> currently open
+  IF k > Len(L) THEN TRUE
+  ELSE LET e == L[k]
+       IN IF <<e.lab, e.bond>> \in open THEN PairedFrom(L, k + 1, open \ {<<e.lab, e.bond>>})
+          ELSE IF (\E p \in open : p[1] = e.lab) /\ ~e.full THEN FALSE
+          ELSE PairedFrom(L, k + 1, open \cup {<<e.lab, e.bond>>})
+LabelsPaired(d) == PairedFrom(d.labels, 1, {})
 EveryRingClosed(d) == d.pc = "done" => \A j \in 1..Len(d.lab) : d.lab[j] \in {0, -1} /\ (d.bonds[j].ring <=> d.lab[j] = -1)
 Balanced(d) == d.pc = "done" => Count(d.out, "(") = Count(d.out, ")")
 NoEmptyBranch(d) == \A i \in 1..(Len(d.out) - 1) : ~(Ch(d.out, i) = "(" /\ Ch(d.out, i + 1) = ")")
 AllWritten(d) == d.pc = "done" => Len(d.otok) = Len(d.atoms)
+
+FailedClauses(d) ==
+  {c \in {"Valence", "CapIsTable", "NoSelfBond", "NoDoubleEdge", "OrdersLegal", "ChainForward",
+          "LabelsLegal", "LabelsPaired", "EveryRingClosed", "Balanced", "NoEmptyBranch", "AllWritten",
+          "AdjMeaning"} :
+     ~ CASE c = "Valence" -> Valence(d) [] c = "CapIsTable" -> CapIsTable(d)
+         [] c = "NoSelfBond" -> NoSelfBond(d) [] c = "NoDoubleEdge" -> NoDoubleEdge(d)
+         [] c = "OrdersLegal" -> OrdersLegal(d) [] c = "ChainForward" -> ChainForward(d)
+         [] c = "LabelsLegal" -> LabelsLegal(d) [] c = "LabelsPaired" -> (d.pc # "done" \/ LabelsPaired(d))
+         [] c = "EveryRingClosed" -> EveryRingClosed(d) [] c = "Balanced" -> Balanced(d)
+         [] c = "NoEmptyBranch" -> (d.pc # "done" \/ NoEmptyBranch(d)) [] c = "AllWritten" -> AllWritten(d)
+         [] c = "AdjMeaning" -> (d.pc \notin {"write", "done"} \/ AdjMeaning(d))}
+
+(* The same clauses evaluated incrementally along a behaviour: the graph     *)
+(* clauses only for the atoms the step touched (all other atoms keep their   *)
+(* bond sums), everything whenever the machine changes phase.                *)
+TouchedAtoms(d, e) ==
+  IF Len(e.bonds) > Len(d.bonds) THEN {e.bonds[Len(e.bonds)].src, e.bonds[Len(e.bonds)].dst}
+  ELSE IF e.ri > d.ri THEN {d.rings[d.ri].l, d.rings[d.ri].r}
+  ELSE IF Len(e.atoms) > Len(d.atoms) THEN {Len(e.atoms)}
+  ELSE {}
+StepClauses(d, e) ==
+  IF e.pc = "done" /\ d.pc # "done" THEN FailedClauses(e)     \* everything once, on the finished molecule
+  ELSE LET T == TouchedAtoms(d, e)
+       IN (IF \A i \in T : BondSum(e, i) <= e.atoms[i].cap THEN {} ELSE {"Valence"})
+          \cup (IF \A i \in T : e.atoms[i].cap = AtomCapacity(Table, e.atoms[i].atom) THEN {} ELSE {"CapIsTable"})
+          \cup (IF Len(e.bonds) > Len(d.bonds)
+                THEN LET b == e.bonds[Len(e.bonds)]
+                     IN (IF b.src # b.dst THEN {} ELSE {"NoSelfBond"})
+                        \cup (IF HasBond(d, b.src, b.dst) THEN {"NoDoubleEdge"} ELSE {})
+                        \cup (IF b.order \in 1..3 /\ b.src < b.dst THEN {} ELSE {"OrdersLegal"})
+                ELSE {})
+          \cup (IF e.ri > d.ri /\ \E j \in 1..Len(e.bonds) : e.bonds[j].order \notin 1..3 THEN {"OrdersLegal"} ELSE {})
+          \cup (IF Len(e.labels) > Len(d.labels) /\ ~(e.labels[Len(e.labels)].lab \in 1..MaxLabel \/ e.labels[Len(e.labels)].full)
+                THEN {"LabelsLegal"} ELSE {})
 
 C01State(d) == /\ Valence(d) /\ CapIsTable(d) /\ NoSelfBond(d) /\ NoDoubleEdge(d)
                /\ OrdersLegal(d) /\ ChainForward(d) /\ LabelsPaired(d)
